@@ -2,6 +2,7 @@ import ParryModel.Field
 import ParryModel.C11.Lemmas
 import ParryModel.C11.Theorems2
 import ParryModel.C11.Theorems3
+import ParryModel.C11.Theorems4
 /-!
 # C11 property theorems: TriMesh derived data always match the buffers
 
